@@ -117,3 +117,51 @@ def assembleCoords (pristine : Bool) (coords2 : Nat → β) (gs : List Grp) : Na
   gs.foldl (assembleCoordsGroup pristine coords2) coords2
 
 end TopSearch.Align
+
+/-! ### the same candidate loop with the tie-breaking left open
+
+  The property (C11) fixes which *distance* is reported, not which of several equally distant
+  candidates is returned.  `scanG` / `optimalAlignmentG` are the loop and the function above with the
+  improvement test `dist < best_dist` as a parameter `imp` (`imp c best = true` means "replace");
+  `improve strict` is the test the source spells — `<` when `strict`, `<=` otherwise — and which of
+  the two it is is read from the source on every run (`Gen.Align.cfg.improveStrictLess`). -/
+namespace TopSearch.Align
+
+variable {α γ : Type}
+
+def scanG [LT α] [DecidableLT α] (imp : α → α → Bool) (crit : α) :
+    Cand α γ → List (Cand α γ) → Sum (Cand α γ) (Cand α γ)
+  | best, [] => .inr best
+  | best, c :: cs =>
+    if c.dist < crit then .inl c
+    else if imp c.dist best.dist then scanG imp crit c cs
+    else scanG imp crit best cs
+
+def optimalAlignmentG [LT α] [DecidableLT α] (imp : α → α → Bool) (crit : α) (exact : Cand α γ)
+    (randoms : List (Cand α γ)) (inversion : Option (Cand α γ × List (Cand α γ))) : Cand α γ :=
+  if exact.dist < crit then exact
+  else match scanG imp crit exact randoms with
+    | .inl c => c
+    | .inr best =>
+      match inversion with
+      | none => best
+      | some (exactInv, randomsInv) =>
+        if exactInv.dist < crit then exactInv
+        else
+          let best' := if imp exactInv.dist best.dist then exactInv else best
+          match scanG imp crit best' randomsInv with
+          | .inl c => c
+          | .inr b => b
+
+/-- `test_exact_same` with the tie-breaking left open -/
+def testExactSameG [LT α] [DecidableLT α] (imp : α → α → Bool) (crit : α) (sentinel : Cand α γ)
+    (cands : List (Cand α γ)) : Cand α γ :=
+  match scanG imp crit sentinel cands with
+  | .inl c => c
+  | .inr b => b
+
+/-- the improvement test as the source spells it -/
+def improve [LT α] [LE α] [DecidableLT α] [DecidableLE α] (strict : Bool) (a b : α) : Bool :=
+  if strict then decide (a < b) else decide (a ≤ b)
+
+end TopSearch.Align
